@@ -133,7 +133,7 @@ func (w *World) singleWrite(tbl string) error {
 	if err != nil {
 		return err
 	}
-	if _, err := tx.Exec("INSERT INTO "+tbl+"(v) VALUES (randomblob(40))"); err != nil {
+	if _, err := tx.Exec("INSERT INTO " + tbl + "(v) VALUES (randomblob(40))"); err != nil {
 		tx.Rollback()
 		return err
 	}
@@ -234,7 +234,7 @@ func runC04(rc *Recorder, dir string, rng *rand.Rand, idx int) error {
 		}
 		if sc.mode != "" {
 			var a, b, c int
-			if err := w.app.QueryRow("PRAGMA wal_checkpoint(" + sc.mode + ")").Scan(&a, &b, &c); err != nil {
+			if err := w.app.QueryRow("PRAGMA wal_checkpoint("+sc.mode+")").Scan(&a, &b, &c); err != nil {
 				return err
 			}
 		}
@@ -249,7 +249,7 @@ func runC04(rc *Recorder, dir string, rng *rand.Rand, idx int) error {
 	twice := func() error { // generation B (medium, never seen by litestream), then generation C (short, current)
 		ck := func() error {
 			var a, b, c int
-			return w.app.QueryRow("PRAGMA wal_checkpoint(" + sc.mode + ")").Scan(&a, &b, &c)
+			return w.app.QueryRow("PRAGMA wal_checkpoint("+sc.mode+")").Scan(&a, &b, &c)
 		}
 		if err := ck(); err != nil {
 			return err
@@ -273,7 +273,7 @@ func runC04(rc *Recorder, dir string, rng *rand.Rand, idx int) error {
 			}
 		}
 		var a, b, c int
-		if err := w.app.QueryRow("PRAGMA wal_checkpoint(" + sc.mode + ")").Scan(&a, &b, &c); err != nil {
+		if err := w.app.QueryRow("PRAGMA wal_checkpoint("+sc.mode+")").Scan(&a, &b, &c); err != nil {
 			return err
 		}
 		cursorFrames := (cursor - 32) / frameSz
